@@ -203,6 +203,8 @@ def renderings(schema):
     ]
     if schema.extensions:
         out.append(("sdl_extensions_folded", "graphql", schema.sdl(fold_extensions=True), True))
+        out.append(("sdl_extensions_before_definitions", "graphql", schema.sdl(extensions_first=True), True))
+        out.append(("sdl_extensions_before_definitions_reversed", "graphql", schema.sdl(order=names[::-1], extensions_first=True), False))
     return out
 
 
